@@ -39,3 +39,22 @@ func (date *SerializableDate) UnmarshalJSON(data []byte) error {
 
 	return nil
 }
+
+// UnmarshalYAML decodes the same text UnmarshalJSON accepts: without it the
+// embedded time.Time makes YAML decoders parse the value as an RFC 3339
+// timestamp, and every date that is valid as JSON is rejected as YAML.
+func (date *SerializableDate) UnmarshalYAML(unmarshal func(interface{}) error) error {
+	var text string
+	if err := unmarshal(&text); err != nil {
+		return fmt.Errorf("unable to parse date from YAML: %w", err)
+	}
+
+	parsedDate, err := time.Parse(time.DateOnly, text)
+	if err != nil {
+		return fmt.Errorf("unable to parse date from YAML: %w", err)
+	}
+
+	date.Time = parsedDate
+
+	return nil
+}
